@@ -766,6 +766,17 @@ func (env *SpecEnv) typeOf(e ast.Expr) types.Type {
 		}
 	case *ast.ParenExpr:
 		return env.typeOf(x.X)
+	case *ast.ArrayType:
+		if x.Len == nil {
+			if t := env.typeOf(x.Elt); t != nil {
+				return types.NewSlice(t)
+			}
+		}
+	case *ast.MapType:
+		k, v := env.typeOf(x.Key), env.typeOf(x.Value)
+		if k != nil && v != nil {
+			return types.NewMap(k, v)
+		}
 	}
 	return nil
 }
@@ -1037,6 +1048,51 @@ func (env *SpecEnv) callExpr(x *ast.CallExpr) SVal {
 		alen, blen := env.extent(a), env.extent(b)
 		// an empty extent (nil slice) is disjoint from everything
 		return sBool(or(sx("<=", alen, "0"), sx("<=", blen, "0"), sx("<=", sx("+", a.C[0], alen), b.C[0]), sx("<=", sx("+", b.C[0], blen), a.C[0])))
+	case "loadAs":
+		// loadAs(T, p): the T stored at the address held in the (unsafe) pointer p
+		tid, ok := x.Args[0].(*ast.Ident)
+		if !ok {
+			specFail("loadAs(T, p): T must be a basic type name")
+		}
+		obj := types.Universe.Lookup(tid.Name)
+		tn, ok := obj.(*types.TypeName)
+		if !ok {
+			specFail("loadAs: unknown basic type %s", tid.Name)
+		}
+		pv := arg(1)
+		var cs []Term
+		for _, l := range leaves(tn.Type()) {
+			fam := family(tn.Type(), l.key())
+			vc.regFam(fam, l.Sort)
+			cs = append(cs, vc.sel(vc.get(env.state(), fam), pv.C[0]))
+		}
+		return SVal{T: tn.Type(), C: cs}
+	case "sliceAt":
+		// sliceAt(T, p): the []T stored at the address held in the (unsafe) pointer p
+		tid, ok := x.Args[0].(*ast.Ident)
+		if !ok {
+			specFail("sliceAt(T, p): T must be a basic type name")
+		}
+		tn, ok := types.Universe.Lookup(tid.Name).(*types.TypeName)
+		if !ok {
+			specFail("sliceAt: unknown basic type %s", tid.Name)
+		}
+		st := types.NewSlice(tn.Type())
+		pv := arg(1)
+		var cs []Term
+		for _, l := range leaves(st) {
+			fam := family(st, l.key())
+			vc.regFam(fam, l.Sort)
+			cs = append(cs, vc.sel(vc.get(env.state(), fam), pv.C[0]))
+		}
+		return SVal{T: st, C: cs}
+	case "boxed":
+		// boxed(i): the scalar held by the interface value i (meaningful together with typeIs)
+		iv := arg(0)
+		if len(iv.C) != 2 {
+			specFail("boxed needs an interface value")
+		}
+		return sInt(iv.C[1])
 	case "inrange":
 		// inrange(x, lo, hi): lo <= x < hi
 		return sBool(and(sx("<=", arg(1).t(), arg(0).t()), sx("<", arg(0).t(), arg(2).t())))
